@@ -16,6 +16,7 @@ import (
 	"fmt"
 	"hash/fnv"
 	"math/rand"
+	"os"
 	"sort"
 	"strings"
 
@@ -44,6 +45,8 @@ type c05Case struct {
 	Probe       bool           `json:"probe,omitempty"`        // contains the hermeticity probe template
 	Expect      string         `json:"expect,omitempty"`       // forbidden-func: the render must fail
 	Pattern     string         `json:"pattern,omitempty"`      // files case: glob pattern
+	Tree        *c05Tree       `json:"tree,omitempty"`         // tree case (round 4): chart tree, render values, engine flags
+	Funcs       []c05FCall     `json:"funcs,omitempty"`        // funcs case (round 4): calls of Helm's own template functions
 }
 
 type c05Hook struct {
@@ -107,6 +110,9 @@ type c05Obs struct {
 	Config   [][2]string   `json:"config,omitempty"`
 	Secrets  [][2]string   `json:"secrets,omitempty"`
 	GlobGets [][2]string   `json:"glob_gets,omitempty"`
+	// tree / funcs case (round 4)
+	TreeObs *c05TreeObs `json:"tree_obs,omitempty"`
+	FuncObs []c05FObs   `json:"func_obs,omitempty"`
 }
 
 type c05LinesObs struct {
@@ -117,7 +123,7 @@ type c05LinesObs struct {
 
 func (*c05) ID() string { return "C05" }
 func (*c05) CoqImport() string {
-	return "From Coq Require Import Uint63.\nFrom Helm Require Import Render.Pipeline Run.RunC05."
+	return "From Coq Require Import Uint63.\nFrom Helm Require Import Values.Tree Render.Pipeline Render.Engine Render.Funcs Render.Mini Run.RunC05."
 }
 func (*c05) Rule() string {
 	return "generated charts (1-4 manifest templates per chart with 1-3 documents each, partials with chart-specific and deliberately " +
@@ -252,6 +258,18 @@ func (*c05) Corpus() []any {
 	// .Files: colliding base names, empty file, duplicate entry
 	out = append(out, c05Case{Kind: "files", Stream: "corpus-files", Pattern: "conf/**", Files: []c05File{
 		{"conf/a/x.txt", "AAA"}, {"conf/b/x.txt", "BBB"}, {"conf/c/x.txt", "CCC"}, {"conf/lines.txt", "l1\nl2\n"}, {"conf/empty.txt", ""}, {"conf/a/x.txt", "AAA2"}}})
+	// round 4
+	out = append(out, c05TreeCorpus()...)
+	out = append(out, c05FuncsCorpus()...)
+	if only := os.Getenv("C05_ONLY"); only != "" {
+		var keep []any
+		for _, x := range out {
+			if strings.Contains(","+only+",", ","+x.(c05Case).Kind+",") {
+				keep = append(keep, x)
+			}
+		}
+		return keep
+	}
 	return out
 }
 
@@ -289,10 +307,28 @@ func (*c05) Exhaustive(tier string) []any {
 }
 
 func (*c05) Generate(r *rand.Rand, i int) any {
-	if i%8 == 7 {
-		return c05GenFiles(r)
+	// development aid: C05_ONLY=tree,funcs restricts the run to these kinds of cases
+	if only := os.Getenv("C05_ONLY"); only != "" {
+		kinds := strings.Split(only, ",")
+		switch kinds[i%len(kinds)] {
+		case "chart":
+			return c05GenChart(r)
+		case "files":
+			return c05GenFiles(r)
+		case "funcs":
+			return c05GenFuncs(r)
+		}
+		return c05GenTree(r)
 	}
-	return c05GenChart(r)
+	switch i % 10 {
+	case 0, 1, 2:
+		return c05GenChart(r)
+	case 3:
+		return c05GenFiles(r)
+	case 8, 9:
+		return c05GenFuncs(r)
+	}
+	return c05GenTree(r)
 }
 
 func (*c05) Decode(raw json.RawMessage) (any, error) {
@@ -322,6 +358,12 @@ func (*c05) Oracle(ci, oi any) []hx.Violation {
 	var vs []hx.Violation
 	if obs.Panic != "" {
 		return []hx.Violation{{Sig: "C05:panic", What: "panic while rendering: " + obs.Panic}}
+	}
+	if c.Kind == "tree" {
+		return c05TreeOracle(c, obs)
+	}
+	if c.Kind == "funcs" {
+		return c05FuncsOracle(obs)
 	}
 	if c.Kind == "files" {
 		if s, ok := obs.Regimes["files-repeat"]; ok && s != "same" {
@@ -457,6 +499,12 @@ func (*c05) CoqCase(ci, oi any) string {
 	if obs.Panic != "" {
 		return c05Skip
 	}
+	if c.Kind == "tree" {
+		return c05CoqTree(c, obs)
+	}
+	if c.Kind == "funcs" {
+		return c05CoqFuncs(c, obs)
+	}
 	if c.Kind == "files" {
 		var from [][2]string
 		for _, f := range c.Files {
@@ -504,8 +552,14 @@ func (*c05) CoqCase(ci, oi any) string {
 
 func (*c05) Class(ci, oi any) string {
 	c, obs := ci.(c05Case), oi.(c05Obs)
-	if c.Kind == "files" {
+	if c.Kind == "files" || c.Kind == "funcs" {
 		return c.Stream
+	}
+	if c.Kind == "tree" {
+		if obs.TreeObs == nil {
+			return c.Stream + "/panic"
+		}
+		return c.Stream + "/" + obs.TreeObs.Render
 	}
 	cl := obs.Class
 	if obs.LoadErr != "" {
@@ -521,6 +575,17 @@ func (*c05) NonTrivial(ci, oi any) bool {
 	}
 	if c.Kind == "files" {
 		return len(c.Files) >= 2 && len(obs.Matched) > 0
+	}
+	if c.Kind == "tree" {
+		return obs.TreeObs != nil && obs.TreeObs.Render == "ok" && len(obs.TreeObs.Rendered) >= 2 && len(c.Tree.Root.Deps) >= 1
+	}
+	if c.Kind == "funcs" {
+		for _, o := range obs.FuncObs {
+			if !o.CodecOK {
+				return true
+			}
+		}
+		return false
 	}
 	if obs.Class != "ok" || obs.Base == nil || len(obs.Rendered) < 2 {
 		return false
